@@ -1,9 +1,9 @@
 (* Rt/StrHistory.v — proofs, part 6: the abstraction function, the simulation of one operation,
-   its lifting to histories, the casts, the concrete codec, and the counterexamples of the pinned
-   runtime (in-place replacement by a shorter character; U+0000). *)
+   its lifting to histories, the casts, the concrete codec, and two counterexamples: U+0000, and the
+   replacement by a shorter character as the runtime did it before /repo commit 629848a (Rt/StrOld.v). *)
 From Coq Require Import List ZArith Bool Lia ZifyBool.
 Import ListNotations.
-From DDP Require Import Rt.Str Rt.StrSpec Rt.StrBase Rt.StrUtf8 Rt.StrOps Rt.StrOps2 Rt.StrOps3.
+From DDP Require Import Rt.Str Rt.StrSpec Rt.StrOld Rt.StrBase Rt.StrUtf8 Rt.StrOps Rt.StrOps2 Rt.StrOps3.
 Open Scope Z_scope.
 
 (* the codec assumptions: standard UTF-8 on every Unicode scalar value *)
@@ -69,7 +69,7 @@ Definition step_rel (r : res (list ddpstring * obs)) (e : res (list (list Z) * o
   | _, _ => False
   end.
 
-Definition text_guard (st : list (list Z)) (o : op) : bool := in_text o && shrink_free st o.
+Definition text_guard (st : list (list Z)) (o : op) : bool := in_text o.
 
 Section WithCodec.
   Variable enc : Z -> option (list Z).
@@ -89,7 +89,7 @@ Section WithCodec.
   Lemma step_refines st sst o :
     srel st sst -> text_guard sst o = true -> step_rel (step enc dec st o) (sstep sst o).
   Proof.
-    intros Hrel G. unfold text_guard in G. apply andb_true_iff in G. destruct G as [Gt Gs].
+    intros Hrel Gt. unfold text_guard in Gt.
     destruct o as [r bs|r a|r a b|r a c|r c a|r a i j|r c|r c i|a i|a|a b|a|a]; cbn [step sstep in_text] in *.
     - destruct (decode bs) as [cs|] eqn:D; [|discriminate Gt]. apply decode_sound in D. destruct D as [-> T].
       pose proof (from_constant_repr cs T) as R. producer R. split; [apply upd_rel; assumption|reflexivity].
@@ -110,10 +110,7 @@ Section WithCodec.
       split; [apply upd_rel; assumption|reflexivity].
     - pose proof (char_to_string_repr enc enc_ok c Gt) as R. producer R.
       split; [apply upd_rel; assumption|reflexivity].
-    - cbn [shrink_free] in Gs.
-      assert (Hg : forall old, s_index (sreg sst r) i = Ok old -> cp_len old <= cp_len c).
-      { intros old Ho. rewrite Ho in Gs. lia. }
-      pose proof (replace_char_repr enc enc_ok _ _ c i (reg_rel _ _ r Hrel) Gt Hg) as R.
+    - pose proof (replace_char_repr enc enc_ok _ _ c i (reg_rel _ _ r Hrel) Gt) as R.
       destruct (replace_char_in_string enc (reg st r) c i) as [v| | | |], (s_replace (sreg sst r) c i) as [w| | | |];
         cbn [rres] in R; try contradiction; cbn [bind step_rel]; auto.
       split; [apply upd_rel; assumption|reflexivity].
@@ -151,47 +148,40 @@ Section WithCodec.
   Qed.
 End WithCodec.
 
-(* ---- the pinned runtime breaks the invariant: replacement by a shorter character ------------------------- *)
-(* "äb" with 'a' stored at position 1 keeps capacity 4 for a text of 2 bytes *)
+(* ---- why the reallocation in the shrink branch is needed (the definition before the fix) --------------------- *)
+(* "äb" with 'a' stored at position 1 kept capacity 4 for a text of 2 bytes; the concatenation with "X"
+   then copied behind the embedded terminator and the text printed was still "ab" *)
 Definition shrunk_example : ddpstring := mkstr [97; 98; 0; 0] 4.
-Lemma replace_shorter_example :
-  replace_char_in_string glibc_enc (mkstr (E [228; 98] ++ [0]) 4) 97 1 = Ok shrunk_example.
+Lemma shrunk_source_repr : repr (mkstr (E [228; 98] ++ [0]) 4) [228; 98].
+Proof. apply repr_intro; [reflexivity|discriminate|reflexivity|reflexivity]. Qed.
+Lemma old_replace_shorter_example :
+  replace_char_in_string_old glibc_enc (mkstr (E [228; 98] ++ [0]) 4) 97 1 = Ok shrunk_example.
 Proof. vm_compute. reflexivity. Qed.
 Lemma shrunk_not_wf : ~ wf shrunk_example.
 Proof. intros W. apply wf_strlen in W; [|reflexivity]. vm_compute in W. discriminate W. Qed.
-Lemma shrunk_source_repr : repr (mkstr (E [228; 98] ++ [0]) 4) [228; 98].
-Proof. apply repr_intro; [reflexivity|discriminate|reflexivity|reflexivity]. Qed.
+Lemma shrunk_consequence :
+  (r <- string_string_verkettet shrunk_example (mkstr [88; 0] 2) ;; print_text r) = Ok (E [97; 98]) /\
+  string_iterate glibc_dec shrunk_example = Stuck /\
+  string_equal false shrunk_example (mkstr [97; 98; 0] 3) = OOB.
+Proof. vm_compute. auto. Qed.
+(* the same input through the current definition *)
+Lemma new_replace_shorter_example :
+  replace_char_in_string glibc_enc (mkstr (E [228; 98] ++ [0]) 4) 97 1 = Ok (mkstr [97; 98; 0] 3).
+Proof. vm_compute. reflexivity. Qed.
 
-(* consequences on whole histories: lost concatenation, wrong equality, endless iteration *)
-Definition concat_witness : list op :=
-  [OLit 0 (E [228; 98]); OReplace 0 97 1; OLit 1 (E [88]); OConcat 2 0 1; OPrint 2].
-Definition equal_witness : list op :=
-  [OLit 0 (E [8364; 120]); OReplace 0 97 1; OLit 1 (E [97; 8364]); OReplace 1 120 2; OPrint 0; OPrint 1; OEqual 0 1].
-Definition iterate_witness : list op :=
-  [OLit 0 (E [228; 98]); OReplace 0 97 1; OIter 0].
-Definition overread_witness : list op :=
-  [OLit 0 (E [228; 98]); OReplace 0 97 1; OLit 1 (E [97; 98]); OEqual 0 1].
-
-Lemma concat_witness_runs :
-  along (fun _ => in_text) sinit concat_witness = true /\
-  fst (m_run init_state concat_witness) = [VNone; VNone; VNone; VNone; VChars (E [97; 98])] /\
-  fst (srun sinit concat_witness) = [VNone; VNone; VNone; VNone; VChars (E [97; 98; 88])].
-Proof. vm_compute. auto. Qed.
-Lemma equal_witness_runs :
-  along (fun _ => in_text) sinit equal_witness = true /\
-  fst (m_run init_state equal_witness) = [VNone; VNone; VNone; VNone; VChars (E [97; 120]); VChars (E [97; 120]); VBool false] /\
-  fst (srun sinit equal_witness) = [VNone; VNone; VNone; VNone; VChars (E [97; 120]); VChars (E [97; 120]); VBool true].
-Proof. vm_compute. auto. Qed.
-Lemma iterate_witness_runs :
-  along (fun _ => in_text) sinit iterate_witness = true /\
-  snd (m_run init_state iterate_witness) = Stuck /\
-  fst (srun sinit iterate_witness) = [VNone; VNone; VChars [97; 98]].
-Proof. vm_compute. auto. Qed.
-Lemma overread_witness_runs :
-  along (fun _ => in_text) sinit overread_witness = true /\
-  snd (m_run init_state overread_witness) = OOB /\
-  fst (srun sinit overread_witness) = [VNone; VNone; VNone; VBool true].
-Proof. vm_compute. auto. Qed.
+Lemma old_replace_shorter_refuted :
+  exists s cs ch i s', repr s cs /\ tchar ch = true /\
+    replace_char_in_string_old glibc_enc s ch i = Ok s' /\ ~ wf s' /\
+    (r <- string_string_verkettet s' (mkstr [88; 0] 2) ;; print_text r) = Ok (E [97; 98]) /\
+    string_iterate glibc_dec s' = Stuck /\
+    string_equal false s' (mkstr [97; 98; 0] 3) = OOB /\
+    replace_char_in_string glibc_enc s ch i = Ok (mkstr [97; 98; 0] 3).
+Proof.
+  exists (mkstr (E [228; 98] ++ [0]) 4), [228; 98], 97, 1, shrunk_example.
+  destruct shrunk_consequence as (C1 & C2 & C3).
+  exact (conj shrunk_source_repr (conj eq_refl (conj old_replace_shorter_example (conj shrunk_not_wf
+          (conj C1 (conj C2 (conj C3 new_replace_shorter_example))))))).
+Qed.
 
 (* U+0000 is a scalar value that the NUL-terminated representation cannot hold *)
 Lemma nul_char_example :
@@ -199,20 +189,4 @@ Lemma nul_char_example :
 Proof.
   split; [vm_compute; reflexivity|]. split; [vm_compute; reflexivity|].
   intros W. apply wf_strlen in W; [|reflexivity]. vm_compute in W. discriminate W.
-Qed.
-
-Lemma num_bytes_char_len c : tchar c = true -> utf8_num_bytes_char c = cp_len c.
-Proof.
-  intros H. apply tchar_range in H. unfold utf8_num_bytes_char, cp_len.
-  repeat match goal with |- context [if ?g then _ else _] => destruct g eqn:?; try lia end.
-Qed.
-
-Lemma shrunk_cps : s_replace [228; 98] 97 1 = Ok [97; 98] /\ cps shrunk_example = Some [97; 98].
-Proof. vm_compute. auto. Qed.
-
-Lemma concat_witness_differs :
-  along (fun _ => in_text) sinit concat_witness = true /\
-  fst (m_run init_state concat_witness) <> fst (srun sinit concat_witness).
-Proof.
-  destruct concat_witness_runs as (G & M & S). split; [exact G|]. rewrite M, S. vm_compute. intros H. discriminate H.
 Qed.
